@@ -185,7 +185,7 @@ prop('C20', title='Load-balancing and retry stubs keep their dispatch promises',
      assumptions=['A-verifiers', 'A-ids', 'A-extraction', 'A-tracing', 'A-stub', 'A-range-from', 'A-atomic', 'A-hash'],
      level_text='Verus proof on the real functions, for every number n of backends: State::next / AtomicCycle::next return element (counter % n) and advance the shared counter by exactly one (wrapping); RoundRobin::call makes exactly one call, on that backend, with the caller\'s context and request, and passes its answer through; ConsistentHash::call makes exactly one call, on backend hash(request) % n (a function of hasher and request only), never panics on the index conversion, and passes the answer through. CBMC proof that State::next returns element (counter % len) and advances the atomic counter by exactly one for every counter value including the wrap (so concurrent calls get consecutive distinct counters); that ConsistentHash picks hash % len < len, never panics and is a function of the request hash only (symbolic hasher); that a Serve used as a Stub passes context, request and result through. Backend counts are enumerated (1..=4 / 1..=3): labelled bounded in that dimension.',
      level_note='Retry::call is under a Verus contract (unit retry) for every number of attempts below 2^32: every call on the wrapped stub carries the caller\'s context and request, attempts are numbered 1, 2, 3, ..., the policy asked for a retry after every attempt but the last and not after the last, the last attempt\'s result is returned, and nothing else is done to the wrapped stub. The wrapped generic Stub is instantiated with an opaque model (async trait fns are outside Verus); `for i in 1..` is written out as the counter loop it denotes (R18). It is also checked by a Kani harness on the real function with symbolic results, policy decisions, deadline and clock, bounded to 3 attempts (unwinding assertions on), and by a native enumeration (5 attempts): those two are labelled bounded. The fairness corollary (per-backend counts differ by at most one over any m consecutive counter values, for every start value, m and backend count) is a Verus lemma over that contract (lemmas/round_robin_fair.rs); it assumes no wrap of the 64-bit counter (fewer than 2^64 calls).',
-     bounded=['backend count dimension enumerated (cycle 1..=4, consistent hash 1..=3, round robin 3)', 'Retry::call under Kani: at most 3 attempts; native enumeration: 5 (the Verus contract of unit retry is unbounded)'],
+     bounded=['Kani harnesses of the balancers: backend count enumerated (cycle 1..=4, consistent hash 1..=3, round robin 3) -- the Verus contracts of unit lb_fairness hold for every backend count', 'Retry::call under Kani: at most 3 attempts; native enumeration: 5 -- the Verus contract of unit retry holds for every number of attempts below 2^32'],
      not_covered='an empty backend list (both balancers divide by the length: a configuration error, stated as precondition); ConsistentHash::new / with_hasher; Retry beyond 2^32 - 1 attempts (the u32 attempt counter: std may panic, wrap or saturate); termination of Retry::call (depends on the policy); round-robin fairness across a wrap of the 64-bit call counter')
 
 prop('C13', title='Per-key channel limit is never exceeded nor over-applied',
